@@ -35,7 +35,7 @@ def replay(path):
 
 def extra(chk, info, res):
     from checks import decisions_common as _dc
-    _dc.tie(chk, ['guards_heating', 'guards_tank'])
+    _dc.tie(chk, ['guards_heating', 'guards_tank', 'open_polls'])
     from checks import guards_common
     guards_common.correspondence(chk, ['filtration_allow_heating', 'pump_stopped_in_standby'])
     if info is not None:
